@@ -146,7 +146,7 @@ def generate(streams: core.Streams, tier: str) -> dict:
             ops.append({k: v for k, v in new_backend().items() if k != "last_format"})
         elif r < 0.20:
             b = gen.pick(s, backends)
-            fmt = gen.pick(s, FORMATS)
+            fmt = gen.pick(s, FORMATS + [None])  # None: the format is left implicit (the default format)
             b["last_format"] = fmt
             ops.append({"op": "InitPipeline", "backend": b["id"], "format": fmt})
         elif r < 0.48:
@@ -157,7 +157,7 @@ def generate(streams: core.Streams, tier: str) -> dict:
             if "c0" in extra_docs and gen.chance(s, 0.5):
                 need = extra_docs["c0"]["_needs"]
                 sel = [x for x in sel if x != need] + [need, "c0"]
-            fmt = gen.pick(s, FORMATS)
+            fmt = gen.pick(s, FORMATS + [None])
             b["last_format"] = fmt
             ops.append({"op": "ConvertCollection", "backend": b["id"], "docs": sel, "format": fmt,
                         "faults": _faults(f, [docs[d]["title"] for d in sel if d in docs])})
